@@ -17,6 +17,8 @@ def _gen_read_walk(log):
 
 
 def _gen_opcodes(log):
+    import sys, os
+    sys.path.insert(0, os.path.join(os.path.dirname(os.path.dirname(os.path.abspath(__file__))), "gen"))
     import gen_opcodes
     gen_opcodes.generate(log)
 
